@@ -188,6 +188,7 @@ func init() {
 		p := fr.i.path
 		msg, _ := args[2].(string)
 		p.assert(termOf(p.bank(), args[1]), "assert", msg, posString(fr.caller))
+		p.known = nil // a known-finding tag covers exactly the next assertion
 		return nil
 	})
 	H("Fail", func(fr *frame, args []value) value {
